@@ -241,3 +241,15 @@ def all_function_nodes(tree: ast.AST, prefix: str):
             else:
                 yield from rec(ch, q)
     yield from rec(tree, prefix)
+
+
+def relation_in(found: ast.AST, accepted_srcs: list[str]) -> tuple[bool, dict]:
+    """for a slot whose *role* is certain (located by construct): is the condition one of the accepted
+    spellings (compared in relational normal form)?  never returns None: a located slot outside the
+    enumerated accepted set is a violation, not an unknown"""
+    f = N.boolean_nf(substitute_len(found))
+    keys = []
+    for src in accepted_srcs:
+        e = N.boolean_nf(substitute_len(expr_of(src)))
+        keys.append(N.nf_key(e))
+    return N.nf_key(f) in keys, {"found": N.nf_str(f), "accepted": accepted_srcs}
